@@ -99,7 +99,60 @@ def validate_sharded(run, module, cfg, trace_path, max_shards=12, per_shard=4000
 
 
 # ---------------------------------------------------------------- blocking wrappers (C02 C10-C13 C19)
-def wrapper_pipeline(run, prop, names, negs, classes, replay_cap=None):
+def handle_rejects(run, prop, rejects, tp, classes, stack, all_rejects):
+    rows = None
+    seen = set()
+    for rj in rejects:
+        key = (rj["trace"], rj["class"], rj.get("p"))
+        if key in seen:
+            continue
+        seen.add(key)
+        rj["_stack"] = stack
+        all_rejects.append(rj)
+        if rj["class"] in classes:
+            if rows is None:
+                rows = vlib.read_ndjson(tp)
+            tr = [x for x in rows if x["trace"] == rj["trace"] and (x["ev"] == "Reset" or x.get("i", 0) <= rj["i"])]
+            cfg = tr[0]["cfg"] if tr else {}
+            sig = {"class": rj["class"], "kind": cfg.get("kind"), "known": rj.get("known", "")}
+            run.report("%s limiter%s: recorded execution rejected by the contract (%s: %s, process %s) after step %s" % (
+                cfg.get("kind"), (" built by " + cfg["ctor"]) if cfg.get("ctor") else "", rj["class"], rj["why"], rj.get("p"), json.dumps(rj["step"])),
+                {"config": cfg, "schedule": [x.get("step") for x in tr[1:]], "trace": tr, "reject": rj,
+                 "rerun": "VERIF_SEED=%d bin/check %s --tier %s" % (run.seed, prop, run.tier)}, sig)
+
+
+def wrapper_random(run, prop, classes, n, all_rejects):
+    """Free-running seeded scenarios over every constructor (configuration, defaults, deprecated constructors, pools)."""
+    out, _ = run.go("^TestWrapperRandom$", env={"VERIF_N": n}, timeout=900)
+    tp = os.path.join(out, "wrapper_trace.ndjson")
+    rejects, total = validate_sharded(run, "WrapperTrace", "Wrapper_trace.cfg", tp)
+    run.events += total
+    stats = {"scenarios": 0, "handoffs": 0, "refusals": 0, "grants_after_sleep": 0, "allserved_scenarios": 0, "ctors": {}}
+    with open(tp) as f:
+        for line in f:
+            x = json.loads(line)
+            if x["ev"] == "Reset":
+                stats["scenarios"] += 1
+                stats["ctors"][x["cfg"]["ctor"]] = stats["ctors"].get(x["cfg"]["ctor"], 0) + 1
+                stats["allserved_scenarios"] += 1 if x["cfg"]["allserved"] else 0
+                if stats["scenarios"] == 1:
+                    run.sample({"free_running_scenario_config": x["cfg"]})
+            elif x["ev"] == "Step":
+                for e in x["evs"]:
+                    if e["k"] == "want" and e["by"] != e["for"]:
+                        stats["handoffs"] += 1
+                    if e["k"] == "ret" and not e["ok"]:
+                        stats["refusals"] += 1
+                    if e["k"] == "ret" and e["ok"] and x["step"].get("p") != e["p"]:
+                        stats["grants_after_sleep"] += 1
+    run.traces += stats["scenarios"]
+    run.extra["free_running"] = stats
+    if stats["grants_after_sleep"] == 0 or stats["refusals"] == 0:
+        raise Machinery("free-running driver is vacuous: %s" % stats)
+    handle_rejects(run, prop, rejects, tp, classes, "free-running", all_rejects)
+
+
+def wrapper_pipeline(run, prop, names, negs, classes, random_n=0, extra_invs=None):
     """mc (+ graph emission) of the implementation-shaped models, negs, replay of every transition on the
     real limiters, validation of the recorded executions against the contract WrapperTrace.
     Rejections whose class is in `classes` are violations of `prop`."""
@@ -109,7 +162,7 @@ def wrapper_pipeline(run, prop, names, negs, classes, replay_cap=None):
     th = run.tier == "thorough"
     for name in names:
         module, consts = configs.WRAPPER[name]
-        text = configs.cfg_text(consts, configs.invs(module), configs.props_of(module), emit=True)
+        text = configs.cfg_text(consts, configs.invs(module) + (extra_invs or {}).get(name, []), configs.props_of(module), emit=True)
         r = run.tlc(module, name + ".cfg", cfg_text=text, label="mc+gen:%s" % name, coverage=False)
         if r.error:
             raise Machinery("TLC %s: %s\n%s" % (r.label, r.error, r.raw[-3000:]))
@@ -149,28 +202,11 @@ def wrapper_pipeline(run, prop, names, negs, classes, replay_cap=None):
             with open(tp) as f:
                 head = [json.loads(next(f)) for _ in range(min(4, total))]
             run.sample({"recorded_trace_excerpt": head})
-        if rejects:
-            rows = None
-            seen = set()
-            for rj in rejects:
-                key = (rj["trace"], rj["class"], rj.get("p"))
-                if key in seen:
-                    continue
-                seen.add(key)
-                rj["_stack"] = prefix
-                all_rejects.append(rj)
-                if rj["class"] in classes:
-                    if rows is None:
-                        rows = vlib.read_ndjson(tp)
-                    tr = [x for x in rows if x["trace"] == rj["trace"] and (x["ev"] == "Reset" or x["i"] <= rj["i"])]
-                    cfg = tr[0]["cfg"] if tr else {}
-                    sig = {"class": rj["class"], "kind": cfg.get("kind"), "known": rj.get("known", "")}
-                    run.report("%s limiter: recorded execution rejected by the contract (%s: %s, process %s) after step %s" % (
-                        cfg.get("kind"), rj["class"], rj["why"], rj.get("p"), json.dumps(rj["step"])),
-                        {"config": cfg, "schedule": [x.get("step") for x in tr[1:]], "trace": tr, "reject": rj,
-                         "rerun": "VERIF_SEED=%d bin/check %s --tier %s" % (run.seed, prop, run.tier)}, sig)
+        handle_rejects(run, prop, rejects, tp, classes, prefix, all_rejects)
         if steps and conf * 2 < steps and not run.violations:
             raise Machinery("dead driver: only %d of %d replayed steps followed the model for %s" % (conf, steps, prefix))
+    if random_n:
+        wrapper_random(run, prop, classes, random_n, all_rejects)
     other = {}
     for rj in all_rejects:
         if rj["class"] not in classes:
@@ -186,10 +222,38 @@ def wrapper_pipeline(run, prop, names, negs, classes, replay_cap=None):
     ]
 
 
+LIVE = {n: ["TerminalAllServed"] for n in ("b3f", "b4", "q4", "q4l", "q3n")}
+
+
 def c10(run):
     th = run.tier == "thorough"
     names = ["b3", "b3f", "d2", "q2", "q3s"] + (["b3p", "b3l2", "d3", "d3f", "q3", "q3l", "q3n", "b4", "q4", "q4t"] if th else [])
-    wrapper_pipeline(run, "C10", names, ["b3-asdelivered-lostwake", "b3f-asdelivered-lostwake", "q3-asdelivered-lostwake", "q3-unbuffered-lostwake"], {"lostwake"})
+    wrapper_pipeline(run, "C10", names, ["b3-asdelivered-lostwake", "b3f-asdelivered-lostwake", "q3-asdelivered-lostwake", "q3-unbuffered-lostwake"],
+                     {"lostwake"}, random_n=2000 if th else 300, extra_invs=LIVE)
+
+
+def c11(run):
+    th = run.tier == "thorough"
+    names = ["q3", "q3l"] + (["q4", "q4l", "q3n", "q4t"] if th else [])
+    wrapper_pipeline(run, "C11", names, [], {"order"}, random_n=4000 if th else 800)
+
+
+def c12(run):
+    th = run.tier == "thorough"
+    names = ["q2", "q3s", "q3"] + (["q3l", "q4t", "q4", "q3n"] if th else [])
+    wrapper_pipeline(run, "C12", names, ["q3-asdelivered-backlog"], {"backlog"}, random_n=3000 if th else 500)
+
+
+def c13(run):
+    th = run.tier == "thorough"
+    names = ["b2c", "d2", "q2", "q3s", "d3"] + (["b3p", "d3f", "q3", "q4t", "b3"] if th else [])
+    wrapper_pipeline(run, "C13", names, ["d3-asdelivered-deadline"], {"bound", "early"}, random_n=3000 if th else 500)
+
+
+def c19(run):
+    th = run.tier == "thorough"
+    names = ["b3f", "q3n", "b3l2"] + (["b4", "q4", "q4l", "q4t", "q3", "q3l"] if th else [])
+    wrapper_pipeline(run, "C19", names, [], {"gate", "starved", "lostwake"}, random_n=4000 if th else 800, extra_invs=LIVE)
 
 
 # ------------------------------------------------------------------------------ C03
@@ -254,4 +318,8 @@ def c03(run):
 CHECKS = {
     "C03": c03,
     "C10": c10,
+    "C11": c11,
+    "C12": c12,
+    "C13": c13,
+    "C19": c19,
 }
